@@ -1267,9 +1267,51 @@ impl<'r> Gen<'r> {
         Item::Usage { name: m.name.clone(), args }
     }
 
+    /// Setter / getter burst: two define-generating macros that give the name passed to them two different
+    /// bodies, then a run of setter usages and reads of the names (the same usage text recurs while the table
+    /// changes underneath it, only ever from inside an expansion).
+    fn setter_burst(&mut self) -> Vec<Item> {
+        let mut v = Vec::new();
+        let mut setters: Vec<(String, String)> = Vec::new();
+        for _ in 0..2 {
+            let n = self.fresh("MK");
+            self.frozen.insert(n.clone());
+            let g = self.fresh("g");
+            let f = self.fresh("p");
+            let lead = self.fresh("b");
+            let m = MacroDef { name: n.clone(), formals: Some(vec![(f, None)]), body: Some(vec![Piece::Tok(lead), Piece::DefStmt(Box::new(Piece::Formal(0)), g.clone())]) };
+            self.known.push(m.clone());
+            v.push(Item::Define(m));
+            setters.push((n, g));
+        }
+        let names = [self.fresh("G"), self.fresh("G")];
+        for g in &names {
+            v.push(Item::Usage { name: setters[0].0.clone(), args: Some(vec![Some(g.clone())]) });
+            self.known.retain(|x| x.name != *g);
+            self.known.push(MacroDef { name: g.clone(), formals: None, body: Some(vec![Piece::Tok(setters[0].1.clone())]) });
+            if !self.generated.contains(g) {
+                self.generated.push(g.clone());
+            }
+        }
+        for _ in 0..self.r.range(3, 9) {
+            let g = self.r.pick(&names).clone();
+            if self.r.chance(2, 5) {
+                let st = self.r.pick(&setters).clone();
+                v.push(Item::Usage { name: st.0, args: Some(vec![Some(g)]) });
+            } else {
+                v.push(Item::Usage { name: g, args: None });
+                v.push(Item::Tok(";".into()));
+            }
+        }
+        v
+    }
+
     pub fn block(&mut self, depth: usize, max_items: usize) -> Vec<Item> {
         let mut items = Vec::new();
         let n = self.r.range(0, max_items);
+        if depth == 0 && self.o.define_in_body && self.r.chance(1, 10) {
+            items.extend(self.setter_burst());
+        }
         for _ in 0..n {
             let k = self.r.below(100);
             let cw = self.o.cond_weight;
